@@ -12,6 +12,8 @@ import (
 
 	"verif/hx"
 	"verif/vrt"
+
+	"gosrc.io/xmpp/stanza"
 )
 
 // C05: every inbound stanza reaches the router exactly once.
@@ -50,7 +52,9 @@ var c05alphabet = []c05sym{
 	}, routed: func(n int) string { return fmt.Sprintf("iq:e%d:error", n) }},
 	{name: "r", wire: func(n, sz int) string { return "<r xmlns='urn:xmpp:sm:3'/>" }, isR: true},
 	{name: "a", wire: func(n, sz int) string { return "<a xmlns='urn:xmpp:sm:3' h='1'/>" }},
-	{name: "features", wire: func(n, sz int) string { return "<stream:features><bind xmlns='urn:ietf:params:xml:ns:xmpp-bind'/></stream:features>" }},
+	{name: "features", wire: func(n, sz int) string {
+		return "<stream:features><bind xmlns='urn:ietf:params:xml:ns:xmpp-bind'/></stream:features>"
+	}},
 	{name: "space", wire: func(n, sz int) string { return " \n\t" }},
 }
 
@@ -79,12 +83,14 @@ func c05split(s string, mode string) []string {
 }
 
 type c05cfg struct {
-	logger bool // client with the traffic logger on (reads go through streamLogger)
-	comp bool
-	sm   bool
-	seg  string
-	size int
-	drop bool // connection lost right after the last element
+	logger      bool // client with the traffic logger on (reads go through streamLogger)
+	comp        bool
+	sm          bool
+	seg         string
+	size        int
+	drop        bool // connection lost right after the last element
+	gate        bool // the handler entered first waits for a second one to be entered (client only)
+	eofWithData bool // with drop: the read that returns the last bytes also reports the end of the connection
 }
 
 func c05body(cfg c05cfg, first []int, maxLen int) func() {
@@ -98,6 +104,12 @@ func c05body(cfg c05cfg, first []int, maxLen int) func() {
 			}
 			seq = append(seq, k-1)
 		}
+		gateWant := 0
+		for _, k := range seq {
+			if c05alphabet[k].routed != nil {
+				gateWant++
+			}
+		}
 		var routed *[]string
 		var sc func() *srvConn
 		var connect func() error
@@ -109,9 +121,27 @@ func c05body(cfg c05cfg, first []int, maxLen int) func() {
 			}
 			routed, sc, connect = end.routed, end.sc, end.connect
 		} else {
-			s := newSess(sessOpts{sm: cfg.sm, smResume: cfg.sm, keepalive: 3600})
+			s := newSess(sessOpts{sm: cfg.sm, smResume: cfg.sm, keepalive: 3600, noCatchAll: cfg.gate})
 			if s.cl == nil {
 				return
+			}
+			if cfg.gate {
+				// "concurrently for a client": the handler that is entered first does not return before a second
+				// one has been entered (when the history has two stanzas). A client that hands stanzas to the
+				// router one after the other, or holds a lock across a handler, never gets there.
+				entered := 0
+				s.router.NewRoute().HandlerFunc(func(_ Sender, p stanza.Packet) {
+					d := describePacket(p)
+					s.routed = append(s.routed, d)
+					vrt.Log("routed %s", d)
+					if !(strings.HasPrefix(d, "message:") || strings.HasPrefix(d, "presence:") || strings.HasPrefix(d, "iq:")) {
+						return
+					}
+					entered++
+					if entered == 1 && gateWant >= 2 {
+						vrt.Block("first handler waits for a second handler to be entered", func() bool { return entered >= 2 })
+					}
+				})
 			}
 			if cfg.logger {
 				f, err := os.CreateTemp("", "verif-c05-*.log")
@@ -158,6 +188,7 @@ func c05body(cfg c05cfg, first []int, maxLen int) func() {
 			}
 		}
 		if cfg.drop {
+			conn.raw.Peer().EOFWithData = cfg.eofWithData
 			conn.close()
 		}
 		vrt.WaitIdle()
@@ -226,6 +257,8 @@ func c05verdict(cfg c05cfg) func(e *vrt.Exec) {
 				cls = "nil-pointer"
 			}
 			vrt.Fail(fmt.Sprintf("C05|panic|%s|sm=%v|comp=%v", cls, cfg.sm, cfg.comp), "panic in T%d (%s): %s <- %s; observations %v", e.Panic.Thread, e.Panic.Site, e.Panic.Value, trimStack(e.Panic.Stack), e.Obs)
+		} else if cfg.gate && e.Deadlock {
+			vrt.Fail("C05|client-routing-not-concurrent", "a handler that waits for the next stanza's handler to be entered waits forever: %s", e.BlockedSummary())
 		} else if e.Deadlock || e.HorizonHit {
 			vrt.Fail("C05|hang", "deadlock=%v horizon=%v: %s", e.Deadlock, e.HorizonHit, e.BlockedSummary())
 		}
@@ -261,14 +294,33 @@ func TestVerifC05(t *testing.T) {
 						if !comp && !sm && (seg == "whole" || seg == "halves") {
 							lc := cfg
 							lc.logger = true
+							if drop {
+								ec := lc
+								ec.eofWithData = true
+								scs = append(scs, hx.Scenario{Name: fmt.Sprintf("logger/seg=%s/drop=%v/eof-with-data/first=%s", seg, drop, c05alphabet[a].name),
+									Opt: vrt.Options{Bound: bound, Horizon: 100000}, Body: c05body(ec, []int{a}, maxLen), Verdict: c05verdict(ec)})
+							}
 							scs = append(scs, hx.Scenario{Name: fmt.Sprintf("logger/seg=%s/drop=%v/first=%s", seg, drop, c05alphabet[a].name),
 								Opt: vrt.Options{Bound: bound, Horizon: 100000}, Body: c05body(lc, []int{a}, maxLen), Verdict: c05verdict(lc)})
+						}
+						if drop && seg == "whole" {
+							ec := cfg
+							ec.eofWithData = true
+							scs = append(scs, hx.Scenario{Name: fmt.Sprintf("comp=%v/sm=%v/seg=%s/drop=%v/eof-with-data/first=%s", comp, sm, seg, drop, c05alphabet[a].name),
+								Opt: vrt.Options{Bound: bound, Horizon: 100000}, Body: c05body(ec, []int{a}, maxLen), Verdict: c05verdict(ec)})
 						}
 						scs = append(scs, hx.Scenario{Name: fmt.Sprintf("comp=%v/sm=%v/seg=%s/drop=%v/first=%s", comp, sm, seg, drop, c05alphabet[a].name),
 							Opt: vrt.Options{Bound: bound, Horizon: 100000}, Body: c05body(cfg, []int{a}, maxLen), Verdict: c05verdict(cfg)})
 					}
 				}
 			}
+		}
+	}
+	for a := range c05alphabet {
+		for _, sm := range []bool{false, true} {
+			cfg := c05cfg{sm: sm, seg: "whole", size: 1, gate: true}
+			scs = append(scs, hx.Scenario{Name: fmt.Sprintf("gate/sm=%v/first=%s", sm, c05alphabet[a].name),
+				Opt: vrt.Options{Bound: bound, Horizon: 100000}, Body: c05body(cfg, []int{a}, maxLen), Verdict: c05verdict(cfg)})
 		}
 	}
 	// sizes around the read buffer and byte-at-a-time delivery: single elements
